@@ -374,6 +374,9 @@ def _check_node(B, pts, top, fd, ctx, probe=True):
 
     # ---- the conjugate ----------------------------------------------------
     expect = fd.get('expect')
+    if expect == 'ValueError' and 'linneg=1' in region:
+        # (negative scalar) * (linear functional) is convex: see C08-K6
+        expect = None
     not_offered = ('IndicatorSimplex' in classes or
                    'IndicatorSumConstraint' in classes)
     try:
